@@ -56,6 +56,12 @@ class Table:
             self.val.append(next(j for j in range(i + 1) if X.deep_equal(self.doits[j], d)))
         self.records = [pickle.dumps((e, d)) for e, d in zip(exprs, self.doits)]
         self.bare = [pickle.dumps(d) for d in self.doits]
+        # the key comparison AS THE CODE EVALUATES IT: `cached_key == expr` with cached_key loaded from
+        # the record (stored, first index) and expr the request (second index).  Decided by the
+        # decorator's _hashable_content; neither reflexive nor injective in general.  The model gets
+        # this table (`World.keyEq`); the premise of C16_safe about it is checked by the driver.
+        self.stored = [pickle.loads(r)[0] for r in self.records]
+        self.key_eq = [[bool(k == e) for e in exprs] for k in self.stored]
         self._names: dict[tuple[str, int], str] = {}
         self._name_ids: dict[str, int] = {}
 
@@ -88,6 +94,8 @@ class Table:
 
     def header(self, modes) -> list[str]:
         out = [f"expr {i} {v}" for i, v in enumerate(self.val)]
+        out.append("keyeq")
+        out += [f"eq {i} {j}" for i, row in enumerate(self.key_eq) for j, x in enumerate(row) if x]
         for m in modes:
             for i in range(len(self.exprs)):
                 out.append(f"key {m} {i} {self.name_id(m, i)}")
